@@ -253,6 +253,8 @@ class Renderer:
         q = n.get('q', 'plain')
         if q == 'block':
             raise HarnessError('block raw only in block context')
+        if q == 'verbatim':
+            return text
         if q == 'plain' and text and '\n' not in text and text == text.strip() and not any(c in text for c in '#:{}[],&*!|>\'"%@`') \
                 and yaml.safe_load('[' + text + ' , 1]') == [text, 1]:
             return text
